@@ -43,6 +43,77 @@ func (g *G) pickInt(xs []int) int     { return xs[g.rng.Intn(len(xs))] }
 func (g *G) chance(pct int) bool      { return g.rng.Intn(100) < pct }
 func (g *G) anyAcct() int             { return g.rng.Intn(g.n) }
 
+// liveAcct prefers an account that exists and can pay (aware choices), else any account.
+func (g *G) liveAcct(v *view, aware bool) int {
+	if aware && len(v.funded) > 0 {
+		return g.pickInt(v.funded)
+	}
+	return g.anyAcct()
+}
+
+// feasible reports whether the live state offers who (-1: anybody) an object on which a
+// message of the kind can succeed.
+func (g *G) feasible(kind string, v *view, who int) bool {
+	has := func(xs []int) bool {
+		for _, x := range xs {
+			if who < 0 || x == who {
+				return true
+			}
+		}
+		return false
+	}
+	switch kind {
+	case "ent.raise":
+		return has(v.wl)
+	case "ent.wl":
+		return has(v.entSigners)
+	case "ent.decide":
+		for _, po := range v.raised {
+			for _, s := range v.entSigners {
+				if !po.decided[s] && (who < 0 || s == who) {
+					return true
+				}
+			}
+		}
+		return false
+	case "wrk.rec", "bcn.rec", "wrk.buy", "bcn.buy":
+		rv := &v.wrk
+		if kind[:3] == "bcn" {
+			rv = &v.bcn
+		}
+		for _, it := range rv.items {
+			if ((who < 0 && it.owner >= 0) || it.owner == who) && (kind[4:] == "rec" || it.limit < rv.max) {
+				return true
+			}
+		}
+		return false
+	case "str.claim":
+		_, ok := g.pickStream(v, who, 'r')
+		return ok
+	case "str.topup", "str.rate", "str.cancel":
+		_, ok := g.pickStream(v, who, 's')
+		return ok
+	case "authz.revoke":
+		for _, x := range v.grants {
+			if who < 0 || x.granter == who {
+				return true
+			}
+		}
+		return false
+	}
+	return true
+}
+
+// prerequisite is the kind that creates what the given kind needs.
+var prerequisite = map[string]string{
+	"ent.decide": "ent.raise", "ent.raise": "ent.wl", "wrk.rec": "wrk.reg", "wrk.buy": "wrk.reg", "bcn.rec": "bcn.reg",
+	"bcn.buy": "bcn.reg", "str.claim": "str.create", "str.topup": "str.create", "str.rate": "str.create",
+	"str.cancel": "str.create", "authz.revoke": "authz.grant",
+}
+
+// anyone lists kinds every funded account can perform.
+var anyone = []string{"bank.send", "str.create", "wrk.reg", "bcn.reg", "feegrant.grant", "authz.grant"}
+
 // acct spells account i, now and then in upper case.
 func (g *G) acct(i int) string {
 	if g.chance(4) {
@@ -139,7 +210,7 @@ func (g *G) msg(kind string, v *view, aware bool, who int, depth int) script.Msg
 	case "ent.raise":
 		p := who
 		if p < 0 {
-			if p = g.anyAcct(); aware && len(v.wl) > 0 {
+			if p = g.liveAcct(v, aware); aware && len(v.wl) > 0 {
 				p = g.pickInt(v.wl)
 			}
 		}
@@ -172,7 +243,7 @@ func (g *G) msg(kind string, v *view, aware bool, who int, depth int) script.Msg
 			}
 		}
 		if s < 0 {
-			if s = g.anyAcct(); aware && len(v.entSigners) > 0 {
+			if s = g.liveAcct(v, aware); aware && len(v.entSigners) > 0 {
 				s = g.pickInt(v.entSigners)
 			}
 		}
@@ -193,7 +264,7 @@ func (g *G) msg(kind string, v *view, aware bool, who int, depth int) script.Msg
 	case "ent.wl":
 		s := who
 		if s < 0 {
-			if s = g.anyAcct(); aware && len(v.entSigners) > 0 {
+			if s = g.liveAcct(v, aware); aware && len(v.entSigners) > 0 {
 				s = g.pickInt(v.entSigners)
 			}
 		}
@@ -250,7 +321,7 @@ func (g *G) msg(kind string, v *view, aware bool, who int, depth int) script.Msg
 			}
 		}
 		if o < 0 {
-			o = g.anyAcct()
+			o = g.liveAcct(v, aware)
 		}
 		if !aware {
 			switch g.rng.Intn(3) {
@@ -341,7 +412,7 @@ func (g *G) msg(kind string, v *view, aware bool, who int, depth int) script.Msg
 		if !ok || !aware {
 			me := who
 			if me < 0 {
-				me = g.anyAcct()
+				me = g.liveAcct(v, aware)
 			}
 			if x, found := g.pickStream(v, -1, role); found && who < 0 && g.chance(50) {
 				st = x // existing stream, but the wrong party acts
@@ -409,7 +480,7 @@ func (g *G) msg(kind string, v *view, aware bool, who int, depth int) script.Msg
 	case "authz.grant":
 		gr := who
 		if gr < 0 {
-			gr = g.anyAcct()
+			gr = g.liveAcct(v, aware)
 		}
 		k := g.execKinds[g.rng.Intn(len(g.execKinds))]
 		if aware { // grant something the granter can actually do
@@ -457,7 +528,7 @@ func (g *G) msg(kind string, v *view, aware bool, who int, depth int) script.Msg
 		}
 		gr := who
 		if gr < 0 {
-			gr = g.anyAcct()
+			gr = g.liveAcct(v, aware)
 		}
 		return M(kind, A(gr), A(g.other(gr)), g.execKinds[g.rng.Intn(len(g.execKinds))])
 
@@ -511,11 +582,17 @@ func (g *G) exec(v *view, aware bool, who int, depth int) script.Msg {
 	case aware:
 		me := who
 		if me < 0 {
-			me = g.anyAcct()
+			me = g.liveAcct(v, true)
 		}
-		payload := []script.Msg{inner(randKind(), me)}
+		feasibleKind := func() string {
+			if k := randKind(); g.feasible(k, v, me) {
+				return k
+			}
+			return g.pick(anyone...)
+		}
+		payload := []script.Msg{inner(feasibleKind(), me)}
 		if g.chance(25) {
-			payload = append(payload, inner(randKind(), me))
+			payload = append(payload, inner(feasibleKind(), me))
 		}
 		return script.Exec(A(me), payload...)
 	}
